@@ -352,7 +352,7 @@ def flowir_for(cfg):
         return flowir_for_shape(cfg)
     mode = cfg["mode"]
     prod = {"name": "producer", "stage": 0, "command": {"executable": "echo", "arguments": "p"}}
-    if mode in ("repeatingProducer", "noCheck"):
+    if mode in ("repeatingProducer", "noCheck", "mixedProducers"):
         # a repeating producer that itself observes a plain source
         src = {"name": "source", "stage": 0, "command": {"executable": "echo", "arguments": "s"}}
         prod["references"] = ["source:ref"]
@@ -361,9 +361,14 @@ def flowir_for(cfg):
         comps = [src, prod]
     else:
         comps = [prod]
+    refs = ["stage0.producer:ref"]
+    if mode == "mixedProducers":
+        # ... and a second producer that does not repeat; it is referenced first
+        comps.append({"name": "plain", "stage": 0, "command": {"executable": "echo", "arguments": "q"}})
+        refs = ["stage0.plain:ref", "stage0.producer:ref"]
     obs = {"name": "observer", "stage": 1 if mode == "earlierStage" else 0,
-           "command": {"executable": "echo", "arguments": "stage0.producer:ref"},
-           "references": ["stage0.producer:ref"],
+           "command": {"executable": "echo", "arguments": " ".join(refs)},
+           "references": refs,
            "workflowAttributes": {"repeatInterval": cfg["R"], "repeatRetries": cfg["retries0"]},
            "variables": {}}
     if cfg["die"] > 0:
@@ -395,8 +400,9 @@ class Runner:
                 stage = 1 if cfg["mode"] == "earlierStage" else 0
                 job = exp.findJob(stage, "observer")
                 prods = job.producerInstances
-                if len(prods) != 1:
+                if len(prods) != (2 if cfg["mode"] == "mixedProducers" else 1):
                     raise MachineryError("observer has %d producers" % len(prods))
+                prods = sorted(prods, key=lambda j: not j.isRepeat)       # the repeating producer first
             else:
                 job = exp.findJob(1, "Monitor")
                 prods = [exp.findJob(stage, name) for stage, name, _ in SHAPES[shape]]
@@ -434,7 +440,7 @@ class Runner:
         cs.engine.emit_now()
         cs.finish(codes.FINISHED_STATE)
 
-    def do_env(self, a, s, p=None):
+    def do_env(self, a, s, p=None, src="-"):
         """perform one environment event at stamp s (the clock has been set by the caller)"""
         if a == "notify":
             self.engine.notify_all_producers_finished()
@@ -449,7 +455,12 @@ class Runner:
             return
         elif a == "output":
             self.nout += 1
-            for d in self.out_dirs:
+            dirs = self.out_dirs
+            if src == "R":
+                dirs = dirs[:1]
+            elif src == "P":
+                dirs = dirs[1:]
+            for d in dirs:
                 path = os.path.join(d, "out_%d.dat" % self.nout)
                 with open(path, "w") as f:
                     f.write("x")
@@ -460,7 +471,10 @@ class Runner:
             self.engine.kill()
         else:
             raise MachineryError("unknown environment event %r" % (a,))
-        self.log(a, s)
+        if a == "output":
+            self.log(a, s, src=src)
+        else:
+            self.log(a, s)
 
     def pump_timers(self, upto):
         """run rx items due <= upto one by one; a firing kill-delay timer is logged as an environment event"""
@@ -489,13 +503,15 @@ class Runner:
         self.window_seen = False
         self.prod_dir = prod.workingDirectory.path
         # new output appears in the directory of every producer of the observer's stage
-        self.out_dirs = [self.prod_dir] if shape == "direct" else [j.workingDirectory.path for j in prods if j.stageIndex == job.stageIndex]
+        self.out_dirs = [j.workingDirectory.path for j in prods] if shape == "direct" else [j.workingDirectory.path for j in prods if j.stageIndex == job.stageIndex]
         for d in set([self.prod_dir] + self.out_dirs):
             for fn in os.listdir(d):
                 os.remove(os.path.join(d, fn))
         env = [dict(e) for e in sched if e["a"] in ("notify", "pfinish", "output", "extkill")]
         checks = [e["s"] for e in sched if e["a"] == "check"]
-        self.nchecks = 0
+        ochecks = [e["s"] for e in sched if e["a"] == "ocheck"]
+        self.nchecks = self.nochecks = 0
+        self.fault_active = False
         durs = [e["s"] for e in sched if e["a"] == "task"]
         rcs = [("ok", "fail", "rexh", "killed")[e["s"]] for e in sched if e["a"] == "rc"]
         late = []
@@ -543,6 +559,14 @@ class Runner:
         fault_mode = cfg["mode"] in ("plainProducer", "noCheck") and shape == "direct"
 
         def listdir(directory):
+            if runner.fault_active and os.path.realpath(directory) == os.path.realpath(runner.prod_dir):
+                # the filesystem fault lasts for the whole attempt: every listing of the repeating producer's directory fails
+                away = directory.rstrip("/") + ".away"
+                os.rename(directory, away)
+                try:
+                    return real_listdir(directory)
+                finally:
+                    os.rename(away, directory)
             if not fault_mode or os.path.realpath(directory) != os.path.realpath(runner.prod_dir):
                 return real_listdir(directory)
             i = runner.nchecks
@@ -559,7 +583,17 @@ class Runner:
         wd._listdir = listdir
         real_check = job.producersHaveOutputSinceDate
 
+        ofault_mode = cfg["mode"] == "repeatingProducer" and shape == "direct"
+
         def check_then_window(date):
+            if ofault_mode and not runner.window_seen and not runner.fault_active:
+                # first output check of this attempt: does the schedule make the filesystem fail during this attempt?
+                i = runner.nochecks
+                runner.nochecks += 1
+                if i < len(ochecks) and ochecks[i]:
+                    runner.fault_active = True
+                    runner.window_seen = True            # an aborted attempt has no WINDOW
+                    runner.log("ofault", 2 * int(W.now), blk="running", wake=int(W.now))
             r = real_check(date)
             if not runner.window_seen:          # one WINDOW per EngineTaskController call (a repaired engine may look twice)
                 runner.window_seen = True
@@ -583,7 +617,7 @@ class Runner:
             self.log("blocked", -1, blk="idle", wake=0)
             while env and env[0]["s"] == -1:
                 e = env.pop(0)
-                self.do_env(e["a"], e["s"], e.get("p"))
+                self.do_env(e["a"], e["s"], e.get("p"), e.get("src", "-"))
             W.now = 0.0
             self.pump_timers(0.0)
             engine.run()
@@ -604,9 +638,10 @@ class Runner:
                         e = env.pop(0)
                         if e["s"] != 2 * t:
                             late.append(e)
-                        self.do_env(e["a"], 2 * t, e.get("p"))
+                        self.do_env(e["a"], 2 * t, e.get("p"), e.get("src", "-"))
                     continue
                 self.window_seen = False
+                self.fault_active = False
                 if kind == "sleep":
                     end = t + int(info["secs"])
                     task = self.task = None
@@ -642,7 +677,7 @@ class Runner:
                         s2 = int(round(eff * 2))
                         if s2 != e["s"]:
                             late.append(e)
-                        self.do_env(e["a"], s2, e.get("p"))
+                        self.do_env(e["a"], s2, e.get("p"), e.get("src", "-"))
                 W.now = float(end)
                 if task is not None:
                     task._finish()
